@@ -28,7 +28,12 @@ def gen_cases(rng, n):
         v = dc.tree_input(rng, kind, depth, bad_leaf=rng.random() < 0.15, width=3, empty_leaf=optv and kind != "union")
         if rng.random() < 0.1:
             v = [v]                    # a list wrapping a single mapping is unwrapped by the converter
-        cases.append(dict(cls=name, ropts=None, data=v, kind=kind, max_depth=d))
+        ropts = None
+        if d is None and rng.random() < 0.5:
+            # the limit given by overriding options at run time: it applies to every nested class, through every link kind
+            d = rng.randint(1, 4)
+            ropts = dict(max_depth=d, override=True)
+        cases.append(dict(cls=name, ropts=ropts, data=v, kind=kind, max_depth=d))
     return cases, classes
 
 
